@@ -51,7 +51,7 @@ ASSUMPTIONS = [
 
 PROFILE = gf.make_profile(
     kinds={"assign_scalar": 9, "assign_elem": 14, "assign_section": 4,
-           "do": 8, "dowhile": 1, "if": 4, "if1": 6, "select": 1,
+           "do": 8, "dowhile": 3, "if": 4, "if1": 6, "select": 1,
            "where": 1, "call": 3, "exitcycle": 2, "return": 1, "print": 0},
     nstmts=(2, 6), budget=16, helpers=(0, 2), max_depth=3,
     arrays=["a", "b", "c", "ib"])
